@@ -503,6 +503,13 @@ fn random_tlv_section(rng: &mut Rng, budget: usize) -> Vec<u8> {
             break;
         }
         v.push(*rng.pick(&[1u8, 2, 3, 4, 5, 0x20, 0x21, 0x30, 0xEE, 0]));
+        if rng.chance(1, 8) && v.len() + 2 + 40 <= budget {
+            // a value made of the protocol's own vocabulary (the signature, an embedded header, a text line)
+            let val = crate::builder::vocabulary_bytes(rng);
+            v.extend_from_slice(&(val.len() as u16).to_be_bytes());
+            v.extend(val);
+            continue;
+        }
         v.extend_from_slice(&(len as u16).to_be_bytes());
         v.extend(rng.bytes(len));
     }
@@ -543,6 +550,13 @@ pub fn halves_block(fam: u8, src: usize, dst: usize, rng: &mut Rng) -> Vec<u8> {
 }
 
 fn address_block(fam: u8, rng: &mut Rng) -> Vec<u8> {
+    if fam != 0 && rng.chance(1, 14) {
+        // an address block whose bytes start with the protocol's own signature
+        let n = family_size(fam);
+        let mut body = ppp::v2::PROTOCOL_PREFIX.to_vec();
+        body.extend(distinct_body(n - 12, rng));
+        return body;
+    }
     if fam != 0 && rng.chance(1, 6) {
         let (a, b) = (rng.below(5) as usize, rng.below(5) as usize);
         return halves_block(fam, a, b, rng);
